@@ -426,3 +426,5 @@ def run(ctx):
     C14.r7_no_loss(ctx, 'C08.R8', C14.REFUSAL_SLOT + C14.ACK_SLOTS, floor=3)
     from .. import boundaries as _b
     _b.check_predicates(ctx, 'C08.RP', 'C08')
+    from .. import boundaries as _b
+    _b.check_updates(ctx, 'C08.RU', 'C08')
